@@ -173,6 +173,9 @@ PROPS["C01"] = A("cases are seeded timed plans over 3-5 real Serf nodes with ful
     real=["package serf (all of it)", "memberlist v0.5.4 fully active: SWIM probing, suspicion, gossip, push/pull, refutation", "go-msgpack"],
     simulated=["network (simnet: per-packet loss/duplication/delay/partition from a keyed PRNG, stream dial refusal)", "clock (synctest)", "process crash/restart"],
     assumptions=["goroutine choice inside un-instrumented memberlist and Go runtime select/map randomness are not controlled: replay is statistical", "no reaping during a run (timeouts 24 h)"])
+PROPS["C25"]["replay_attempts"] = 6   # the slow-client race depends on Go's random select choice (DESIGN 10.1)
+PROPS["C25"]["replay"] = "exact, except the slow-client race whose manifestation depends on Go's random select choice (reproduces with probability 2/3 per round; the driver retries up to 6 times)"
+PROPS["C01"]["replay_attempts"] = 3
 PROPS["C01"]["quick"].update({"batch": 4, "wd_s": 300})
 PROPS["C01"]["thorough"].update({"batch": 16, "wd_s": 300})
 PROPS["C14"] = D("cases are seeded histories against a real Serf node whose snapshot lives on simfs: user events and queries delivered by gossip and push/pull, real joins (with/without ignoreOld) against a real peer holding events, fake-time advances around the 500 ms flush interval, and 1-3 restarts (crash: only bytes already handed to the OS survive; or clean shutdown) followed by old and new messages; distinct = distinct step-list hash; non-trivial = messages injected after a restart",
